@@ -195,7 +195,7 @@ def run(chk):
     sim, _ = gen.tlc_programs(alpha, 8, simulate=nprog * 4, seed=chk.seed, chk=chk, minlen=3, typed=fprofile.INPUTS)
     pool = [p for p in sim if len(p) >= 3 and any(c.get("lhs") in ("w", "k", "w2") or c.get("lhs") == ["k"] for c in p)]
     rng.shuffle(pool)
-    programs = pool[:nprog * 2 // 3]
+    programs = fprofile.core_shapes() + pool[:nprog * 2 // 3]
     while len(programs) < nprog:
         programs.append(gen.random_program(rng, alpha, rng.randint(5, 11), typed=fprofile.INPUTS))
     methods = [{"phases": [{"name": "p0", "next": rng.choice(["p0", "p1"]), "calls": c},
